@@ -37,6 +37,8 @@ MAP_SENS = {
     "reader_iter_skips_on_shrink": ("LsmIter", "Ops4221", "KIter", "TIter", 3, "IterPrefix", "InvScan"),
     "btree_reader_holds_stale_node": ("BTree3", "Ops22", "KPG", "T01", 2, "NoPrefix", "InvRead"),
 }
+# second variant of a deviation (thorough tier): must violate with the deviation, be clean without it
+MAP_SENS_EXTRA = [("compaction_concurrent_install", "LsmSTconc2", "Ops51", "KPG_D", "T0_6", 2, "ConcPrefix")]
 TXN_SENS = {"si_reads_latest_not_snapshot": ('{"si"}', "InvSnapshot")}
 ALL_MAP_DEVS = sorted(MAP_SENS)
 TAG = os.environ.get("VERIF_C14_TAG", "")        # scratch-dir suffix so that several runs can coexist
@@ -67,60 +69,121 @@ def txn_consts(ntx, maxops, levels, dev=(), keys="{1, 2}"):
 
 
 # ---------------------------------------------------------------------------
-# (1) model checking
+# (1) model checking + (2) behaviour enumeration: independent TLC runs, executed concurrently
 
-def model_check(chk, tier):
-    wd = tlc.workdir(lab("mc"))
+def run_jobs(jobs, pool):
+    """jobs: dicts(name, module, consts, invs, view, label, workers, timeout, dump) -> TLCResults (same order)"""
+    from concurrent.futures import ThreadPoolExecutor
+
+    def one(j):
+        wd = tlc.workdir(j["label"])
+        cfg = tlc.write_cfg(wd / "mc.cfg", constants=j["consts"], invariants=j.get("invs", ()), view=j.get("view"))
+        extra = ["-dump", str(wd / "states")] if j.get("dump") else None
+        return tlc.run(SPEC / j["module"], cfg, label=j["label"], workers=j["workers"], timeout=j["timeout"],
+                       extra=extra)
+    with ThreadPoolExecutor(max_workers=pool) as ex:
+        return list(ex.map(one, jobs))
+
+
+def tlc_phase(chk, tier, known_map, known_txn, skip_mc=False):
+    """Design model clean with Dev={}; every deviation caught alone; program / behaviour enumeration with the
+    code's open deviations.  Returns (map programs, txn behaviours)."""
+    big = max(2, tlc.DEFAULT_WORKERS // 2)
+    small = 2
+    jobs = []
+
+    def job(kind, name, module, consts, label, workers, invs=(), view=None, dump=False, **kw):
+        jobs.append(dict(kind=kind, name=name, module=module, consts=consts, label=lab(label), workers=workers,
+                         invs=list(invs), view=view, dump=dump, timeout=6000, **kw))
+
     if tier == "quick":
         clean = [("4 lsm configurations (all strategies) + btree + kv", "QuickAll", "Ops22", "KWR", "T0_01")]
-        txn = [(2, 2, '{"ser", "si", "rc"}'), (3, 1, '{"ser", "si"}')]
+        txn = [(2, 2, '{"ser", "si", "rc"}')]
+        gen = [("QuickAll", "Ops21", "KWR", "T01")]
+        tgen = [(2, 2, '{"ser", "si"}')]
     else:
-        clean = [("lsm size-tiered", "LsmST", "Ops32", "KWR", "T01"),
-                 ("lsm leveled", "LsmLV", "Ops32", "KWR", "T01"),
-                 ("lsm fifo", "LsmFIFO", "Ops32", "KWR", "T01"),
-                 ("lsm bloom false positives", "LsmFP", "Ops32", "KWR", "T01"),
-                 ("lsm all kinds both clients", "LsmSTq", "Ops22", "KAll2", "T012"),
-                 ("lsm three clients", "LsmST1", "Ops222", "KWWR", "T01x3"),
+        clean = [("lsm all strategies, memtable 1-2, 2-3 levels", "LsmAll", "Ops32", "KWR", "T0_01"),
+                 ("lsm size-tiered, writer offsets", "LsmSTq", "Ops32", "KWR", "T01"),
+                 ("lsm bloom false positives", "LsmFP", "Ops32", "KWR", "T0_01"),
+                 ("lsm all kinds both clients", "LsmSTq", "Ops22", "KAll2", "T0_01"),
+                 ("lsm three clients", "LsmST1", "Ops222", "KWWR", "T0_0_01"),
                  ("btree order 3", "BTree3", "Ops32", "KWR", "T01"),
-                 ("btree order 4", "BTree4", "Ops42", "KWR", "T01"),
-                 ("btree all kinds", "BTree3", "Ops22", "KAll2", "T012"),
-                 ("kv", "KV", "Ops32", "KNoScan2", "T012")]
-        txn = [(3, 2, '{"ser"}'), (3, 2, '{"si"}'), (2, 4, '{"ser", "si"}')]
-    for name, cfgs, ops, kinds, thinks in clean:
-        cfg = tlc.write_cfg(wd / "clean.cfg", constants=map_consts(cfgs, ops, kinds, thinks), invariants=MAP_INVS)
-        res = tlc.run(SPEC / "StorageMC.tla", cfg, label=lab("mc"), timeout=3000)
-        chk.add_tlc(f"Storage Dev={{}} {name} [{cfgs} {ops} {kinds} {thinks}]", res)
-        chk.require(res.ok, f"Storage.tla with Dev={{}} violates {res.violated} in {name}: the design model is wrong")
-    for dev, (cfgs, ops, kinds, thinks, nk, pre, inv) in MAP_SENS.items():
-        cfg = tlc.write_cfg(wd / "sens.cfg", constants=map_consts(cfgs, ops, kinds, thinks, nk, pre, [dev]),
-                            invariants=MAP_INVS)
-        res = tlc.run(SPEC / "StorageMC.tla", cfg, label=lab("mc"), timeout=1200)
-        chk.add_tlc(f"Storage Dev={{{dev}}} [{cfgs}]", res, count=False, note="sensitivity run, must violate")
-        chk.require(res.violated in MAP_INVS, f"deviation {dev} not caught (got {res.violated})")
-        chk.sensitivity[dev] = res.violated
-        if tier == "thorough" and dev in ("compaction_concurrent_install", "reader_iter_skips_on_shrink"):
-            # the same targeted envelope must be clean without the deviation
-            cfg = tlc.write_cfg(wd / "sens0.cfg", constants=map_consts(cfgs, ops, kinds, thinks, nk, pre, []),
-                                invariants=MAP_INVS)
-            res = tlc.run(SPEC / "StorageMC.tla", cfg, label=lab("mc"), timeout=1200)
-            chk.add_tlc(f"Storage Dev={{}} targeted [{cfgs}]", res)
-            chk.require(res.ok, f"Storage.tla with Dev={{}} violates {res.violated} in {cfgs}")
-    for ntx, mo, levels in txn:
-        cfg = tlc.write_cfg(wd / "txn.cfg", constants=txn_consts(ntx, mo, levels), invariants=TXN_INVS, view="View")
-        res = tlc.run(SPEC / "Txn.tla", cfg, label=lab("mc"), timeout=3000)
-        chk.add_tlc(f"Txn Dev={{}} NTx={ntx} MaxOpsTx={mo} levels={levels}", res)
-        chk.require(res.ok, f"Txn.tla with Dev={{}} violates {res.violated} (levels {levels})")
-    for dev, (level, inv) in TXN_SENS.items():
-        cfg = tlc.write_cfg(wd / "txn_sens.cfg", constants=txn_consts(2, 2, level, [dev]), invariants=TXN_INVS,
-                            view="View")
-        res = tlc.run(SPEC / "Txn.tla", cfg, label=lab("mc"), timeout=600)
-        chk.add_tlc(f"Txn Dev={{{dev}}}", res, count=False, note="sensitivity run, must violate")
-        chk.require(res.violated == inv, f"deviation {dev} not caught (got {res.violated})")
-        chk.sensitivity[dev] = res.violated
+                 ("btree order 4", "BTree4", "Ops42", "KWR", "T0_01"),
+                 ("btree all kinds", "BTree3", "Ops22", "KAll2", "T0_01"),
+                 ("kv", "KV", "Ops32", "KNoScan2", "T0_01")]
+        txn = [(3, 2, '{"ser"}'), (3, 2, '{"si"}'), (2, 4, '{"ser", "si"}'), (3, 1, '{"ser", "si", "rc"}')]
+        gen = [("QuickAll", "Ops21", "KWR", "T01"), ("LsmST2", "Ops22", "KWR", "T01"), ("BTree3", "Ops22", "KWR", "T01"),
+               ("LsmFP", "Ops21", "KWR", "T01")]
+        tgen = [(2, 3, '{"ser", "si"}'), (3, 1, '{"ser", "si"}'), (2, 2, '{"rc"}')]
+    if not skip_mc:
+        for i, (name, cfgs, ops, kinds, thinks) in enumerate(clean):
+            job("clean", f"Storage Dev={{}} {name} [{cfgs} {ops} {kinds} {thinks}]", "StorageMC.tla",
+                map_consts(cfgs, ops, kinds, thinks), f"mc{i}", big, MAP_INVS)
+        for dev, (cfgs, ops, kinds, thinks, nk, pre, _inv) in MAP_SENS.items():
+            job("sens", f"Storage Dev={{{dev}}} [{cfgs}]", "StorageMC.tla",
+                map_consts(cfgs, ops, kinds, thinks, nk, pre, [dev]), f"sens_{dev[:8]}", small, MAP_INVS, dev=dev,
+                expect=MAP_INVS)
+            if tier == "thorough" and pre != "NoPrefix":
+                job("clean", f"Storage Dev={{}} targeted [{cfgs}]", "StorageMC.tla",
+                    map_consts(cfgs, ops, kinds, thinks, nk, pre, []), f"sens0_{dev[:8]}", small, MAP_INVS)
+        for i, (dev, cfgs, ops, kinds, thinks, nk, pre) in enumerate(MAP_SENS_EXTRA if tier == "thorough" else []):
+            job("sens", f"Storage Dev={{{dev}}} variant [{cfgs}]", "StorageMC.tla",
+                map_consts(cfgs, ops, kinds, thinks, nk, pre, [dev]), f"sensx{i}", small, MAP_INVS, dev=dev,
+                expect=MAP_INVS)
+            job("clean", f"Storage Dev={{}} targeted [{cfgs}]", "StorageMC.tla",
+                map_consts(cfgs, ops, kinds, thinks, nk, pre, []), f"sensx0_{i}", small, MAP_INVS)
+        for i, (ntx, mo, levels) in enumerate(txn):
+            job("clean", f"Txn Dev={{}} NTx={ntx} MaxOpsTx={mo} levels={levels}", "Txn.tla",
+                txn_consts(ntx, mo, levels), f"txn{i}", big if tier == "thorough" else small, TXN_INVS, view="View")
+        for dev, (levels, inv) in TXN_SENS.items():
+            job("sens", f"Txn Dev={{{dev}}}", "Txn.tla", txn_consts(2, 2, levels, [dev]), f"tsens_{dev[:8]}", small,
+                TXN_INVS, view="View", dev=dev, expect=[inv])
+    for i, (cfgs, ops, kinds, thinks) in enumerate(gen):
+        job("gen", f"program enumeration [{cfgs} {ops} {kinds} {thinks}]", "StorageMC.tla",
+            map_consts(cfgs, ops, kinds, thinks, dev=known_map), f"gen{i}", small, dump=True, key=f"{cfgs} {ops}")
+    for i, (ntx, mo, levels) in enumerate(tgen):
+        job("tgen", f"Txn behaviour enumeration NTx={ntx} MaxOpsTx={mo} {levels}", "Txn.tla",
+            txn_consts(ntx, mo, levels, known_txn), f"tgen{i}", small, view="View", dump=True, ntx=ntx,
+            key=f"{ntx}x{mo} {levels}")
+    results = run_jobs(jobs, pool=4 if tier == "quick" else 3)
 
+    progs, behs = [], []
+    done_re = re.compile(r'pc \|-> "(\w+)"')
+    for j, res in zip(jobs, results):
+        wd = tlc.WORK / j["label"]
+        if j["kind"] == "clean":
+            chk.add_tlc(j["name"], res)
+            chk.require(res.ok, f"{j['name']}: the design model (Dev={{}}) violates {res.violated}")
+        elif j["kind"] == "sens":
+            chk.add_tlc(j["name"], res, count=False, note="sensitivity run, must violate")
+            chk.require(res.violated in j["expect"], f"deviation {j['dev']} not caught (got {res.violated})")
+            chk.sensitivity[j["dev"]] = res.violated
+        elif j["kind"] == "gen":
+            chk.add_tlc(j["name"], res, count=False,
+                        note="terminal states enumerate programs (model with the code's open deviations)")
+            n = 0
+            for st in _dump_states(wd / "states.dump", lambda t: set(done_re.findall(t)) == {"done"}):
+                m = st["m"]
+                scripts = [[dict(th=x["th"], k=x["k"], key=x["key"], hi=x["hi"], val=x["val"]) for x in sc]
+                           for sc in st["script"]]
+                if not any(scripts):
+                    continue
+                progs.append(dict(cfg=cfg_from_state(m["cfg"]), scripts=scripts, hist=model_hist(m),
+                                  final=model_final(m)))
+                n += 1
+            chk.extra.setdefault("model_programs", {})[j["key"]] = n
+            (wd / "states.dump").unlink(missing_ok=True)
+        else:
+            chk.add_tlc(j["name"], res, count=False, note="one behaviour (event log) per distinct finished state")
+            n = 0
+            for st in _dump_states(wd / "states.dump", lambda t: '"active"' not in t and '"none"' not in t):
+                behs.append(dict(level=st["S"]["level"], ntx=j["ntx"], nk=2, ev=[list(e) for e in st["ev"]],
+                                 store=as_map(st["S"]["store"])))
+                n += 1
+            chk.extra.setdefault("txn_behaviours", {})[j["key"]] = n
+            (wd / "states.dump").unlink(missing_ok=True)
+    return progs, behs
 
-# ---------------------------------------------------------------------------
-# (2) behaviours generated by TLC
 
 def _dump_states(path, want):
     """Yield parsed states of a -dump file whose raw text satisfies want(text)."""
@@ -182,55 +245,6 @@ def cfg_from_state(c):
     return out
 
 
-def map_programs(chk, tier, known):
-    """Terminal states of the as-code model = every program of a small envelope, with the model's prediction."""
-    wd = tlc.workdir(lab("gen"))
-    envs = [("QuickAll", "Ops21", "KWR", "T01")]
-    if tier == "thorough":
-        envs += [("LsmST2", "Ops22", "KWR", "T01"), ("BTree3", "Ops22", "KWR", "T01"), ("LsmFP", "Ops21", "KWR", "T01")]
-    progs = []
-    done_re = re.compile(r'pc \|-> "(\w+)"')
-    for cfgs, ops, kinds, thinks in envs:
-        cfg = tlc.write_cfg(wd / "gen.cfg", constants=map_consts(cfgs, ops, kinds, thinks, dev=known))
-        res = tlc.run(SPEC / "StorageMC.tla", cfg, label=lab("gen"), extra=["-dump", str(wd / "states")],
-                      timeout=1800)
-        chk.add_tlc(f"program enumeration [{cfgs} {ops} {kinds} {thinks}]", res, count=False,
-                    note="terminal states enumerate programs (model with the code's known deviations)")
-        n = 0
-        for st in _dump_states(wd / "states.dump", lambda t: set(done_re.findall(t)) == {"done"}):
-            m = st["m"]
-            scripts = [[dict(th=s["th"], k=s["k"], key=s["key"], hi=s["hi"], val=s["val"]) for s in sc]
-                       for sc in st["script"]]
-            if not any(scripts):
-                continue
-            progs.append(dict(cfg=cfg_from_state(m["cfg"]), scripts=scripts, hist=model_hist(m),
-                              final=model_final(m)))
-            n += 1
-        chk.extra.setdefault("model_programs", {})[f"{cfgs} {ops}"] = n
-        (wd / "states.dump").unlink(missing_ok=True)
-    return progs
-
-
-def txn_behaviours(chk, tier, known):
-    wd = tlc.workdir(lab("tgen"))
-    out = []
-    envs = [(2, 2, '{"ser", "si"}')] if tier == "quick" else [(2, 3, '{"ser", "si"}'), (3, 1, '{"ser", "si"}'),
-                                                              (2, 2, '{"rc"}')]
-    for ntx, mo, levels in envs:
-        cfg = tlc.write_cfg(wd / "gen.cfg", constants=txn_consts(ntx, mo, levels, known), view="View")
-        res = tlc.run(SPEC / "Txn.tla", cfg, label=lab("tgen"), extra=["-dump", str(wd / "states")], timeout=1800)
-        chk.add_tlc(f"Txn behaviour enumeration NTx={ntx} MaxOpsTx={mo} {levels}", res, count=False,
-                    note="one behaviour (event log) per distinct finished state")
-        n = 0
-        for st in _dump_states(wd / "states.dump", lambda t: '"active"' not in t and '"none"' not in t):
-            out.append(dict(level=st["S"]["level"], ntx=ntx, nk=2, ev=[list(e) for e in st["ev"]],
-                            store=as_map(st["S"]["store"])))
-            n += 1
-        chk.extra.setdefault("txn_behaviours", {})[f"{ntx}x{mo} {levels}"] = n
-        (wd / "states.dump").unlink(missing_ok=True)
-    return out
-
-
 # ---------------------------------------------------------------------------
 # (3) random programs (code -> spec)
 
@@ -258,7 +272,7 @@ def random_cfg(rng, engine):
 
 def random_scripts(rng, cfg, nk):
     nc = rng.choice((1, 2, 2, 3, 3, 4))
-    total = rng.randint(3, 14)
+    total = rng.randint(3, 14) + (nk if nk > 4 else 0)
     burst = rng.random() < 0.3                      # same-instant bursts: all think times 0
     span = max(cfg["W"], cfg["RL"], cfg["BW"] if cfg["engine"] == "btree" else 1) * 2 + 2
     kinds = ["put", "put", "put", "del", "get", "get"] + ([] if cfg["engine"] == "kv" else ["scan"])
@@ -276,6 +290,25 @@ def random_scripts(rng, cfg, nk):
         scripts[c].append(st)
     number_values(scripts)
     return scripts
+
+
+def add_audit(rng, cfg, scripts, nk):
+    """One more client that starts after everything else is over and reads every key + the whole range:
+    makes lost / resurrected keys observable whatever the random operations were."""
+    per_op = 3 * (cfg["ML"] + 2 * cfg["W"] + 4 * cfg["RL"] * (cfg["maxlev"] + 2)) if cfg["engine"] == "lsm" else \
+        6 * (cfg["BR"] + cfg["BW"]) + cfg["KR"] + cfg["KW"] + cfg["KD"]
+    bound = sum(st["th"] + per_op for sc in scripts for st in sc) + 5
+    sc = []
+    keys = list(range(1, nk + 1))
+    rng.shuffle(keys)
+    for i, k in enumerate(keys):
+        sc.append(dict(th=bound if i == 0 else 0, k="get", key=k, hi=0, val=0))
+    if cfg["engine"] != "kv":
+        sc.insert(rng.randrange(len(sc) + 1), dict(th=0, k="scan", key=1, hi=nk + 1, val=0))
+        sc[0]["th"] = bound
+        for st in sc[1:]:
+            st["th"] = 0
+    scripts.append(sc)
 
 
 def number_values(scripts):
@@ -334,38 +367,51 @@ def random_txn_plans(rng, nk):
 # ---------------------------------------------------------------------------
 # trace validation + attribution
 
-def validate(module, traces, label, chunk=2000, timeout=2400):
-    """Batch trace validation -> ({id: (verdict, pos, match)}, [TLCResult])"""
-    wd = tlc.WORK / label
-    wd.mkdir(parents=True, exist_ok=True)
+def validate(module, traces, label, parallel=4, timeout=3000):
+    """Batch trace validation, split over `parallel` concurrent single-worker TLC processes (a trace spec walks
+    its batch sequentially) -> ({id: (verdict, pos, match)}, [TLCResult])"""
+    from concurrent.futures import ThreadPoolExecutor
     if module == "StorageTrace.tla":
         consts = {"Cfgs": "{}", "MaxOps": "<- NoOps", "Kinds": "<- NoOps", "NK": 0, "Thinks": "<- NoOps",
                   "Prefixes": "{}"}
     else:
         consts = {"Dev": "{}", "NTx": 0, "TKeys": "{}", "MaxOpsTx": 0, "Levels": "{}"}
-    cfg = tlc.write_cfg(wd / "trace.cfg", spec="TSpec", constants=consts)
-    verdicts, results = {}, []
-    for k in range(0, len(traces), chunk):
-        part = traces[k:k + chunk]
+    if not traces:
+        return {}, []
+    nchunk = max(1, min(parallel, len(traces) // 40 or 1))
+    parts = [traces[i::nchunk] for i in range(nchunk)]
+
+    def one(arg):
+        i, part = arg
+        lb = f"{label}_{i}"
+        wd = tlc.workdir(lb)
+        cfg = tlc.write_cfg(wd / "trace.cfg", spec="TSpec", constants=consts)
         f = wd / "traces.json"
         f.write_text(json.dumps(part, separators=(",", ":")))
-        res = tlc.run(SPEC / module, cfg, label=label, workers=1, timeout=timeout, env={"TRACE_FILE": str(f)})
-        results.append(res)
+        res = tlc.run(SPEC / module, cfg, label=lb, workers=1, timeout=timeout, env={"TRACE_FILE": str(f)},
+                      heap="3g")
+        out = {}
         for v in res.printed:
             if isinstance(v, tuple) and len(v) == 5 and v[0] == "V":
-                verdicts[v[1]] = (v[2], v[3], v[4])
-        miss = [t["id"] for t in part if t["id"] not in verdicts]
+                out[v[1]] = (v[2], v[3], v[4])
+        miss = [t["id"] for t in part if t["id"] not in out]
         if miss:
-            raise tlc.TLCFailure(f"{label}: no verdict for traces {miss[:3]} (see {wd / 'tlc.out'})")
+            raise tlc.TLCFailure(f"{lb}: no verdict for traces {miss[:3]} (see {wd / 'tlc.out'})")
+        return out, res
+    verdicts, results = {}, []
+    with ThreadPoolExecutor(max_workers=nchunk) as ex:
+        for out, res in ex.map(one, list(enumerate(parts))):
+            verdicts.update(out)
+            results.append(res)
     return verdicts, results
 
 
-def attribute(module, failing, known, label, setdev):
+def attribute(module, failing, known, label, setdev, parallel=4):
     """For traces whose observed history violates the contract and which the model with all `known` deviations
     reproduces: the smallest subset(s) of `known` whose model still reproduces it.  {tid: tuple(devs)}"""
     out, todo = {}, dict(failing)
     results = []
-    for sizes in ((1, 2), tuple(range(3, len(known) + 1))):
+    for sizes in ((0, 1, 2), tuple(range(3, len(known) + 1))):
         subsets = [sub for size in sizes if size <= len(known) for sub in itertools.combinations(known, size)]
         if not todo or not subsets:
             break
@@ -375,7 +421,7 @@ def attribute(module, failing, known, label, setdev):
                 cid = len(batch) + 1
                 batch.append(setdev(dict(tr, id=cid), list(sub)))
                 back[cid] = (tid, sub)
-        v, r = validate(module, batch, label)
+        v, r = validate(module, batch, label, parallel=parallel)
         results += r
         for cid in sorted(v):                      # subsets are listed smallest first
             tid, sub = back[cid]
@@ -396,12 +442,12 @@ def _set_txn_dev(tr, dev):
     return tr
 
 
-def judge(chk, module, traces, meta, verdicts, known, label, setdev, describe):
+def judge(chk, module, traces, meta, verdicts, known, label, setdev, describe, parallel=4):
     bad = {tid: v for tid, v in verdicts.items() if v[0] != "ACCEPT"}
     explained = {}
     cand = {tid: traces[tid - 1] for tid, v in bad.items() if v[0].startswith("PROP:") and v[2] == 1}
     if cand and known:
-        explained, res = attribute(module, cand, known, label + "_attr", setdev)
+        explained, res = attribute(module, cand, known, label + "_attr", setdev, parallel)
         for r in res:
             chk.add_tlc(f"{module} attribution batch", r, count=False)
     for tid, v in sorted(bad.items()):
@@ -410,7 +456,13 @@ def judge(chk, module, traces, meta, verdicts, known, label, setdev, describe):
             chk.note_drift(f"{label} trace {tid} ({describe(tr)}): {v[0]} at {v[1]}")
             continue
         replay = {"kind": label, "meta": meta[tid], "trace": tr, "verdict": list(v)}
-        if tid in explained:
+        if tid in explained and not explained[tid]:
+            # the design model itself (no deviation at all) reproduces the failing execution: a defect that no
+            # deviation of Storage.tla / Txn.tla describes yet
+            chk.violation(f"{v[0][5:]}:{describe(tr)}:no_deviation_needed",
+                          f"{v[0]} at op {v[1]} ({describe(tr)}); the model reproduces it with Dev={{}}: the violation "
+                          f"is not due to any known deviation", replay)
+        elif tid in explained:
             for d in explained[tid]:
                 chk.violation(d, f"{v[0]} at op {v[1]} ({describe(tr)}); reproduced exactly by the model with "
                                  f"deviation(s) {list(explained[tid])}", replay)
@@ -430,7 +482,8 @@ def run(tier, seed, replay=None):
     known_txn = [d for d in known if d in TXN_SENS]
     if replay:
         return run_replay(chk, replay, known_map, known_txn)
-    model_check(chk, tier)
+    # VERIF_C14_SKIP_MC: development aid (mutation runs need not repeat the repository-independent model check)
+    progs, behs = tlc_phase(chk, tier, known_map, known_txn, skip_mc=bool(os.environ.get("VERIF_C14_SKIP_MC")))
 
     # ---- map engines ---------------------------------------------------------------------------
     traces, meta = [], {}
@@ -441,14 +494,15 @@ def run(tier, seed, replay=None):
         traces.append(L.to_trace(tid, dict(cfg, dev=list(known_map)), scripts, w, final))
         meta[tid] = dict(origin=origin, names=names, yield_from=yf)
         chk.impl_steps += len(w.hist)
-        if err or w.bad_time:
-            chk.violation(f"exception:{(err or 'time_off_grid').split(':')[0]}:{cfg['engine']}",
-                          f"real engine raised {err} (off-grid time: {w.bad_time})",
+        if err:
+            chk.violation(f"exception:{err.split(':')[0]}:{cfg['engine']}",
+                          f"operation on the real engine raised {err} (no read value / scan result returned)",
                           {"kind": "map", "meta": meta[tid], "trace": traces[-1]})
+        if w.bad_time:
+            chk.note_drift(f"trace {tid}: an operation began/returned off the tick grid (latency assumption broken)")
         return w, final
 
-    progs = map_programs(chk, tier, known_map)
-    cap = 700 if tier == "quick" else 6000
+    cap = 500 if tier == "quick" else 4000
     chosen = progs if len(progs) <= cap else rng.sample(progs, cap)
     chk.exhaustive = len(chosen) == len(progs)
     matched = 0
@@ -467,23 +521,33 @@ def run(tier, seed, replay=None):
     chk.extra["replay_state_matched"] = matched
     chk.extra["model_programs_total"] = len(progs)
 
-    n_rand = 900 if tier == "quick" else 12000
+    n_rand = 720 if tier == "quick" else 6000
     for i in range(n_rand):
         if i % 4 == 3:
             nk = rng.choice((2, 3))
             names, fps = L.universe(nk, want_fp=(i % 8 == 7))
             cfg, scripts = writer_storm(rng, nk)
             cfg["fp"] = fps
+            if i % 8 != 3:
+                add_audit(rng, cfg, scripts, nk)
             execute(cfg, scripts, names, "storm", yf=bool(i % 3))
             continue
         engine = ("lsm", "lsm", "btree", "lsm", "btree", "kv")[i % 6]
-        nk = rng.choice((2, 3, 3, 4))
-        names, fps = L.universe(nk, want_fp=(engine == "lsm" and i % 5 == 0))
+        if engine == "btree":
+            nk = rng.choice((2, 3, 4, 5, 6, 8))
+            names, fps = L.plain_names(nk), []
+        else:
+            nk = rng.choice((2, 3, 3, 4))
+            names, fps = L.universe(nk, want_fp=(engine == "lsm" and i % 5 == 0))
         cfg = random_cfg(rng, engine)
         cfg["fp"] = fps
-        execute(cfg, random_scripts(rng, cfg, nk), names, "random", yf=bool(i % 2))
+        scripts = random_scripts(rng, cfg, nk)
+        if i % 5 != 4:
+            add_audit(rng, cfg, scripts, nk)
+        execute(cfg, scripts, names, "random", yf=bool(i % 2))
 
-    verdicts, results = validate("StorageTrace.tla", traces, lab("trace"))
+    par = 4 if tier == "quick" else 6
+    verdicts, results = validate("StorageTrace.tla", traces, lab("trace"), parallel=par)
     for r in results:
         chk.add_tlc("StorageTrace batch (contract on observed history + model re-run)", r)
 
@@ -491,7 +555,7 @@ def run(tier, seed, replay=None):
         c = tr["cfg"]
         return c["engine"] + (":" + c["strat"] if c["engine"] == "lsm" else "")
     bad, explained = judge(chk, "StorageTrace.tla", traces, meta, verdicts, known_map, lab("trace"), _set_map_dev,
-                           describe_map)
+                           describe_map, parallel=par)
     chk.extra["map_traces"] = len(traces)
     chk.extra["map_contract_failures_observed"] = sum(1 for v in bad.values() if v[0].startswith("PROP:"))
     chk.extra["map_failures_by_deviation"] = {d: sum(1 for s in explained.values() if d in s) for d in known_map}
@@ -499,11 +563,12 @@ def run(tier, seed, replay=None):
     # ---- transactions ----------------------------------------------------------------------------
     ttraces, tmeta = [], {}
 
-    def texec(level, plans, nk, origin, expect=None):
-        w, err = T.run_plan(level, plans, nk, read_ticks=rng.choice((1, 3, 6)), write_ticks=rng.choice((1, 5)))
+    def texec(level, plans, nk, origin):
+        rt, wt = rng.choice((1, 3, 6)), rng.choice((1, 5))
+        w, err = T.run_plan(level, plans, nk, read_ticks=rt, write_ticks=wt)
         tid = len(ttraces) + 1
         ttraces.append(T.to_trace(tid, level, nk, len(plans), w, known_txn))
-        tmeta[tid] = dict(origin=origin, plans=plans)
+        tmeta[tid] = dict(origin=origin, plans=plans, read_ticks=rt, write_ticks=wt)
         chk.impl_steps += len(w.ev)
         if err or w.anomalies:
             chk.violation(f"exception:{(err or w.anomalies[0]).split(':')[0]}:txn",
@@ -511,8 +576,7 @@ def run(tier, seed, replay=None):
                                                                           "trace": ttraces[-1]})
         return w
 
-    behs = txn_behaviours(chk, tier, known_txn)
-    tcap = 500 if tier == "quick" else 5000
+    tcap = 400 if tier == "quick" else 3000
     tchosen = behs if len(behs) <= tcap else rng.sample(behs, tcap)
     tmatched = 0
     for b in tchosen:
@@ -525,11 +589,11 @@ def run(tier, seed, replay=None):
             chk.note_drift(f"replay of Txn.tla behaviour differs (dev={known_txn}): model={b['ev']} code={w.ev}")
     chk.extra["txn_replay_matched"] = tmatched
     chk.extra["txn_behaviours_total"] = len(behs)
-    for i in range(400 if tier == "quick" else 6000):
+    for i in range(300 if tier == "quick" else 3000):
         level = ("ser", "si", "ser", "si", "rc")[i % 5]
         nk = rng.choice((1, 2, 2, 3))
         texec(level, random_txn_plans(rng, nk), nk, "random")
-    tverdicts, tresults = validate("TxnTrace.tla", ttraces, lab("ttrace"))
+    tverdicts, tresults = validate("TxnTrace.tla", ttraces, lab("ttrace"), parallel=par // 2)
     for r in tresults:
         chk.add_tlc("TxnTrace batch (contract on observed events + model re-run)", r)
     tbad, texpl = judge(chk, "TxnTrace.tla", ttraces, tmeta, tverdicts, known_txn, lab("ttrace"), _set_txn_dev,
@@ -569,7 +633,8 @@ def run_replay(chk, path, known_map, known_txn):
     rp = data["replay"]
     tr = rp["trace"]
     if rp.get("kind", "").endswith("ttrace") or rp.get("kind") == "txn":
-        w, err = T.run_plan(tr["level"], rp["meta"]["plans"], tr["nk"])
+        w, err = T.run_plan(tr["level"], rp["meta"]["plans"], tr["nk"], rp["meta"].get("read_ticks", 3),
+                            rp["meta"].get("write_ticks", 5))
         new = T.to_trace(1, tr["level"], tr["nk"], tr["ntx"], w, known_txn)
         module, label, setdev, known = "TxnTrace.tla", lab("replay_t"), _set_txn_dev, known_txn
         describe = lambda t: "txn:" + t["level"]
